@@ -100,6 +100,7 @@ func cmdScan(args []string) {
 	only := fs.String("only", "", "comma separated checker names (default all)")
 	hangSecs := fs.Int("hang", 20, "seconds before a single Check is reported as suspect")
 	goVer := fs.String("gover", "", "target Go version given to Context.SetGoVersion")
+	goVerLate := fs.Bool("goverlate", false, "call SetGoVersion after the checkers were constructed (an integrator re-targeting a shared context)")
 	pvFile := fs.String("pvfile", "", "JSON {vector name: {checker: {param: value}}} of explicit parameter vectors usable in -pv")
 	fs.Parse(args)
 	explicit := map[string]map[string]map[string]interface{}{}
@@ -177,7 +178,7 @@ func cmdScan(args []string) {
 		}
 		core.SetParams(over)
 		ctx := linter.NewContext(fset, nil)
-		if *goVer != "" {
+		if *goVer != "" && !*goVerLate {
 			ctx.SetGoVersion(*goVer)
 		}
 		var set []*linter.Checker
@@ -196,6 +197,10 @@ func cmdScan(args []string) {
 				continue
 			}
 			set = append(set, c)
+		}
+		if *goVer != "" && *goVerLate {
+			ctx.SetGoVersion("1.99")
+			ctx.SetGoVersion(*goVer)
 		}
 		for _, p := range pkgs {
 			if p.NErrors != 0 {
